@@ -102,16 +102,28 @@ inductive PVal where
 
 def isDigits (cs : List Char) : Bool := !cs.isEmpty && cs.all Char.isDigit
 
-/-- canonical integer literal: optional '-', digits, no leading zeros (what the generators produce) -/
+/-- canonical integer literal: optional '-', digits, no leading zeros, inside the int64 range (what
+`dynamic.Message.UnmarshalJSON` accepts for an int64 field among the literals the generators produce; a canonical
+literal outside the range is rejected) -/
 def intLit? (t : String) : Option Int :=
   let cs := t.toList
   let (neg, ds) := match cs with
     | '-' :: r => (true, r)
     | _ => (false, cs)
-  if isDigits ds && (ds.length == 1 || ds.head? != some '0') && ds.length ≤ 15 then
+  if isDigits ds && (ds.length == 1 || ds.head? != some '0') && ds.length ≤ 19 then
     let v : Nat := ds.foldl (fun a c => a * 10 + (c.toNat - 48)) 0
-    some (if neg then -(v : Int) else v)
+    let i : Int := if neg then -(v : Int) else v
+    if -9223372036854775808 ≤ i ∧ i ≤ 9223372036854775807 then some i else none
   else none
+
+/-- a text made of digits and signs only that is not a canonical literal (`05`, `+5`, `--1`, a 25-digit number is
+canonical and simply out of range): the library's decision for these is not recorded in the model -/
+def oddNumeric (t : String) : Bool :=
+  let cs := t.toList
+  let (_, ds) := match cs with
+    | '-' :: r => (true, r)
+    | _ => (false, cs)
+  !cs.isEmpty && cs.all (fun c => c.isDigit || c = '-' || c = '+') && !(isDigits ds && (ds.length == 1 || ds.head? != some '0'))
 
 /-- `some none` = accepted and left at the default (omitted on the wire); `none` = rejected (400) -/
 def convert (k : FKind) (v : PVal) : Option (Option String) :=
@@ -224,7 +236,14 @@ structure Outcome where
   samples : List String
   deriving Repr, DecidableEq
 
-def dlText (tmo : Nat) : String := "dl" ++ toString (if tmo == 0 then 15 else tmo)
+/-- `timeout := defaultTimeout; if conf.Timeout != 0 { timeout = conf.Timeout }` in milliseconds (both guns; tied to
+the source by `Bridge.C20.gunTimeout_eq` / `scenarioTimeout_eq`) -/
+def effTimeoutMs (ms : Nat) : Nat := if ms == 0 then 15000 else ms
+
+/-- the deadline of a call as the recorder prints it (`c20lib.DLBucket`): whole seconds as `dl<s>` -/
+def dlText (tmoMs : Nat) : String :=
+  let e := effTimeoutMs tmoMs
+  if e % 1000 == 0 then "dl" ++ toString (e / 1000) else "dl" ++ toString e ++ "ms"
 
 def callText (method : String) (msg : List (String × String)) (md : String) (tmo : Nat) : String :=
   method ++ "|" ++ msgText msg ++ "|" ++ md ++ "|" ++ dlText tmo
@@ -242,9 +261,10 @@ def shootEntry (tmo : Nat) (e : Entry) : Outcome :=
       let msg := canonMsg fs vals
       { calls := [callText m msg (mdText e.md) tmo], samples := [sampleText e.tag (serverCode m msg)] }
 
-/-- state of a plain gun that matters between shots: how many shots it has made (nothing else survives a shot) -/
+/-- state of a plain gun that survives a shot: how many shots it has made and which stub `Bind` gave it -/
 structure GunState where
   shots : Nat
+  stub : Nat := 0
   deriving Repr
 
 /-- an instance firing a list of entries one after another -/
@@ -252,8 +272,38 @@ def shootAll (tmo : Nat) : GunState → List Entry → GunState × List Outcome
   | g, [] => (g, [])
   | g, e :: es =>
     let o := shootEntry tmo e
-    let (g', os) := shootAll tmo { shots := g.shots + 1 } es
+    let (g', os) := shootAll tmo { g with shots := g.shots + 1 } es
     (g', o :: os)
+
+/-! ### a pool of plain guns (`Bind`, shared_deps.go) -/
+
+/-- `Bind`: with a shared client pool of `sc > 0` stubs the k-th bound instance takes `clientPool.Next()`, which is
+stub `(k + 1) mod sc`; without one it dials its own connection (numbered `k`) -/
+def stubOf (sc k : Nat) : Nat := if sc == 0 then k else (k + 1) % sc
+
+def initPool (n sc : Nat) : List GunState := (List.range n).map fun k => { shots := 0, stub := stubOf sc k }
+
+/-- the pool fires the provider's entries in order; entry `k` is fired by instance `sched[k]` (entries beyond the
+schedule stay unfired, an instance index outside the pool fires nothing). Returns the pool and, per fired entry,
+the instance, the stub used and the outcome. -/
+def runPool (tmo : Nat) : List GunState → List Nat → List Entry → List GunState × List (Nat × Nat × Outcome)
+  | gs, [], _ => (gs, [])
+  | gs, _, [] => (gs, [])
+  | gs, i :: sched, e :: es =>
+    match gs[i]? with
+    | none => runPool tmo gs sched (e :: es)
+    | some g =>
+      let o := shootEntry tmo e
+      let (gs', tr) := runPool tmo (gs.set i { g with shots := g.shots + 1 }) sched es
+      (gs', (i, g.stub, o) :: tr)
+
+def dedupNat : List Nat → List Nat
+  | [] => []
+  | x :: xs => x :: (dedupNat xs).filter (· != x)
+
+/-- number of distinct connections that carried at least one call -/
+def connsUsed (tr : List (Nat × Nat × Outcome)) : Nat :=
+  (dedupNat ((tr.filter fun (_, _, o) => !o.calls.isEmpty).map fun (_, st, _) => st)).length
 
 /-! ### scenarios -/
 
@@ -299,6 +349,7 @@ structure ScenDef where
   deriving Repr
 
 structure Cfg where
+  /-- configured per-call timeout, ms (0 = not configured) -/
   tmo : Nat
   users : List String
   g : String
@@ -318,10 +369,15 @@ structure World where
   caches : List ((Nat × String × String) × Cache Char)
   deriving Repr
 
+/-- call names are pairwise distinct (the provider keeps one definition per name) -/
+def namesDistinct : List CallDef → Bool
+  | [] => true
+  | cd :: rest => !(rest.any (·.name == cd.name)) && namesDistinct rest
+
 def assocGet {α β} [BEq α] (l : List (α × β)) (k : α) : Option β := (l.find? (·.1 == k)).map (·.2)
 
 def assocSet {α β} [BEq α] (l : List (α × β)) (k : α) (v : β) : List (α × β) :=
-  if l.any (·.1 == k) then l.map fun (k', v') => if k' == k then (k', v) else (k', v') else l ++ [(k, v)]
+  if l.any (·.1 == k) then l.map fun x => if x.1 == k then (x.1, v) else x else l ++ [(k, v)]
 
 /-- name of the scenario whose iterator the call's preprocessor ends up with -/
 def iterOwner (c : Cfg) (cd : CallDef) : String :=
